@@ -36,6 +36,7 @@ Findings on this tree (listed in known_findings.d/C15.json, input classes exclud
 import json
 import random
 import re
+import warnings
 
 from hypothesis import strategies as st
 
@@ -150,6 +151,7 @@ def stream(env, entry, entry_src, data, allowed):
     random.seed(20240915)  # the random filter draws from the global generator: make the case a pure function
     chunks = []
     err = None
+    warnings.simplefilter("ignore", SyntaxWarning)  # Python's compile() warns about constant subscripts such as 5[0:3]
     try:
         t = env.from_string(entry_src) if entry is None else env.get_template(entry)
         for chunk in t.generate(data):
@@ -411,7 +413,7 @@ def modes(draw, full=True):
     """One mode per case (a second compile of the same program costs as much as a fresh case)."""
     if not full:
         return [draw(st.sampled_from([{"m": "static"}, {"m": "static"}, {"m": "select", "ext": ""}]))]
-    k = draw(st.integers(0, 15))
+    k = draw(st.integers(0, 16))
     if k <= 4:
         return [{"m": "static"}]
     if k <= 6:
@@ -427,8 +429,15 @@ def modes(draw, full=True):
     return [{"m": "segments"}]
 
 
+def fit_modes(templates, ms):
+    """Region modes need a program without blocks / imports (escgen.region_ok); other programs get the name-selected mode."""
+    if escgen.region_ok(templates):
+        return ms
+    return [m if m["m"] not in ("region", "volatile", "segments") else {"m": "select", "ext": SELECT_EXTS[len(m.get("m")) % len(SELECT_EXTS)]} for m in ms]
+
+
 def esc_cases(size):
-    return st.builds(lambda p, d, m: {"kind": "esc", "templates": p["templates"], "data": d, "modes": m},
+    return st.builds(lambda p, d, m: {"kind": "esc", "templates": p["templates"], "data": d, "modes": fit_modes(p["templates"], m)},
                      escgen.programs(neutral=False, size=size), escgen.datas(), modes())
 
 
@@ -445,7 +454,7 @@ def run_shard(spec, ctx):
     rec = core.Rec()
     core.hyp_shard(esc_cases(ctx.pick(14, 20)), check_case, ctx, ctx.pick(1100, 16000), rec=rec, tag="esc")
     if not rec.violations:
-        core.hyp_shard(tset_cases(not ctx.quick), check_case, ctx, ctx.pick(150, 2500), rec=rec, tag="tset")
+        core.hyp_shard(tset_cases(not ctx.quick), check_case, ctx, ctx.pick(300, 5000), rec=rec, tag="tset")
     return rec
 
 
